@@ -57,11 +57,15 @@ def default_values(params, groups):
     return vals
 
 
-def replay_diff(text, cfgA, cfgB, values, tol=1e-8, ignore_extra_zero=False):
+def replay_diff(text, cfgA, cfgB, values, tol=1e-8, ignore_extra_zero=False, errors="type"):
+    """errors='type': both runs must raise the same exception type ("the same errors");
+    errors='reject': only the accept/reject decision is compared (any exception = reject)."""
     ka, ra = concrete(cfgA, text, values)
     kb, rb = concrete(cfgB, text, values)
     if ka == "error" or kb == "error":
         if ka == kb:
+            if errors == "reject":
+                return False, "both reject (%s / %s)" % (_norm_error(ra), _norm_error(rb))
             if _norm_error(ra) == _norm_error(rb):
                 return False, "both raise %s" % _norm_error(ra)
             return True, "A raises %s, B raises %s" % (_norm_error(ra), _norm_error(rb))
@@ -82,7 +86,7 @@ def replay_diff(text, cfgA, cfgB, values, tol=1e-8, ignore_extra_zero=False):
 
 def diff_check(text, cfgA, cfgB, descA, descB, groups=(), name="", prop="", timeout_ms=20000,
                bool_route=True, real_route=True, st=None, tol=1e-8, ignore_extra_zero=True,
-               max_real_params=14, classify=None, key_prefix=""):
+               max_real_params=14, classify=None, key_prefix="", errors="type"):
     """Obligations: A and B agree (errors, instance sets, values for all parameter values and
     all worlds). Returns Stats."""
     st = st if st is not None else Stats()
@@ -97,7 +101,7 @@ def diff_check(text, cfgA, cfgB, descA, descB, groups=(), name="", prop="", time
 
     def violation(kind, detail, what, values=None):
         values = values or default_values(params, groups)
-        rep, info = replay_diff(text, cfgA, cfgB, values, tol, ignore_extra_zero)
+        rep, info = replay_diff(text, cfgA, cfgB, values, tol, ignore_extra_zero, errors=errors)
         if rep:
             key = "%s:%s:%s" % (kind, pkey, detail)
             if kind == "error":
@@ -119,8 +123,10 @@ def diff_check(text, cfgA, cfgB, descA, descB, groups=(), name="", prop="", time
     def judge(route, oa, ob, extra):
         okey = "%s:%s" % (route, pkey)
         if oa.kind == "error" or ob.kind == "error":
-            if oa.kind == ob.kind and _norm_error(oa.error) == _norm_error(ob.error):
+            if oa.kind == ob.kind and (errors == "reject" or _norm_error(oa.error) == _norm_error(ob.error)):
                 st.ob("proved", key=okey + ":err")
+                if _norm_error(oa.error) != _norm_error(ob.error):
+                    st["reject_type_diffs"] = st.get("reject_type_diffs", 0) + 1
                 return
             ok = violation("error", route, "configurations disagree on accept/reject: A=%s B=%s" % (
                 _norm_error(oa.error) if oa.error else "answers",
